@@ -232,6 +232,28 @@ Theorem radius_collapse_keeps_others : forall l, wf_keys l ->
 Proof. exact radius_collapse_keeps_others_all. Qed.
 Print Assumptions radius_collapse_keeps_others.
 
+From V Require Import C12.Nesting C12.NestingProofs.
+(* NESTING LOWERING, the branch that may use :is() (or has at most one parent
+   selector).  lower_is is the faithful model of lowerNestingInRuleWithContext
+   pass 1 (the implicit "&" of relative selectors) and pass 2
+   (substituteAmpersandsInCompoundSelector with the replacement made by
+   multipleComplexSelectorsToSingleComplexSelector: splicing the parent's
+   leading compounds, merging its last compound, :is(type) for a second type
+   selector, :is(parent) where a combinator or a longer parent forbids merging,
+   recursion into :is()/:not() arguments; tied to the Go code by nest_cases).
+   Selectors: types, classes, the four combinators, :is()/:not() nested
+   arbitrarily, "&" anywhere.  For EVERY element structure (any finite set of
+   elements with arbitrary type/class assignment and arbitrary meaning of the
+   four combinators as relations to sets of elements), every parent selector
+   list without leading combinators, every nested selector and every element:
+   the element matches the lowered selector iff it matches the nested selector
+   read as CSS Nesting 1 prescribes - a relative selector starts with an
+   implicit "&", and "&" stands for the elements matched by :is(parent list). *)
+Theorem nesting_lowering_is_preserves_matching : forall D parents cx, parents_ok parents = true ->
+  forall x, matches D (parent_set D parents) (lower_is parents cx) x = matches D (parent_set D parents) (inject_amp cx) x.
+Proof. exact lower_is_matching. Qed.
+Print Assumptions nesting_lowering_is_preserves_matching.
+
 (* DUPLICATE DECLARATIONS AT A DISTANCE.  The back-to-front duplicate removal over
    a declaration list keeps exactly the LAST occurrence of every declaration,
    where identity includes the property, the value and !important: a declaration
